@@ -39,37 +39,43 @@ static void snap(out_t *o, char c, apicall_t *call, int idx) {
   else out_mpf(o, call->f[idx]);
 }
 
-/* api_alias fname P mask args...   (P = index of the aliased output parameter, mask = bitmask of the
-   input parameters of the same kind that are the same variable as it) */
-static int op_api_alias(int argc, tok_t *a, out_t *o) {
-  if (argc < 3 || a[0].kind != T_STR) return -1;
-  const apidesc_t *d = find_api((char *) a[0].s); if (!d) return -1;
-  int P = tok_long(&a[1]); unsigned long mask = tok_ulong(&a[2]);
-  int np = strlen(d->sig); if (P < 0 || P >= np || !is_ptr(d->sig[P])) return -1;
+/* api_alias fname P mask args...            one alias group
+   api_alias2 fname P1 mask1 P2 mask2 args...  two groups (two outputs, each the same variable as some inputs)
+   (P = index of the aliased output parameter, mask = bitmask of the input parameters of the same kind that
+   are the same variable as it) */
+static int alias_run(const apidesc_t *d, int ng, const int *P, const unsigned long *mask, tok_t *a, int argc0, out_t *o) {
+  int np = strlen(d->sig);
+  int grp_of[16], first[2] = {-1, -1};
+  for (int i = 0; i < np; i++) grp_of[i] = -1;
+  for (int g = 0; g < ng; g++) {
+    if (P[g] < 0 || P[g] >= np || !is_ptr(d->sig[P[g]]) || grp_of[P[g]] >= 0) return -1;
+    char kind = d->sig[P[g]] | 0x20; grp_of[P[g]] = g;
+    for (int i = 0; i < np; i++) if (mask[g] >> i & 1) {
+      if (d->sig[i] != kind || grp_of[i] >= 0) return -1;
+      grp_of[i] = g; if (first[g] < 0) first[g] = i;
+    }
+    if (first[g] < 0) return -1;
+  }
   int need = 0; for (int i = 0; i < np; i++) need += ntoks(d->sig[i]);
-  if (argc != 3 + need) return -1;
-  char kind = d->sig[P] | 0x20;
-  int first = -1; for (int i = 0; i < np; i++) if (mask >> i & 1) { if ((d->sig[i]) != kind) return -1; if (first < 0) first = i; }
-  if (first < 0) return -1;
-  /* token offset of each parameter; members of the alias group take the tokens of `first` */
-  int off[16], t = 3; for (int i = 0; i < np; i++) { off[i] = t; t += ntoks(d->sig[i]); }
+  if (argc0 != need) return -1;
+  int off[16], t = 0; for (int i = 0; i < np; i++) { off[i] = t; t += ntoks(d->sig[i]); }
   char *res[2] = {0, 0}; int exc[2] = {0, 0};
   for (int run = 0; run < 2; run++) {           /* 0 = distinct variables, 1 = aliased */
     vars_t v; memset(&v, 0, sizeof v); apicall_t c; memset(&c, 0, sizeof c);
     int zi = 0, qi = 0, fi = 0, ui = 0, si = 0, di = 0, bi = 0, ii = 0, ni = 0, have_rs = 0;
-    int shared = -1;
+    int shared[2] = {-1, -1};
     for (int i = 0; i < np; i++) {
-      char s = d->sig[i]; int grp = (i == P) || (mask >> i & 1);
-      tok_t *tk = &a[grp ? off[first] : off[i]];
+      char s = d->sig[i]; int g = grp_of[i];
+      tok_t *tk = &a[g >= 0 ? off[first[g]] : off[i]];
       if (s == 'Z' || s == 'z') {
-        if (run == 1 && grp && shared >= 0) c.z[zi++] = v.z[shared];
-        else { mpz_init(v.z[v.nz]); tok_mpz(v.z[v.nz], tk); if (grp) shared = v.nz; c.z[zi++] = v.z[v.nz++]; }
+        if (run == 1 && g >= 0 && shared[g] >= 0) c.z[zi++] = v.z[shared[g]];
+        else { mpz_init(v.z[v.nz]); tok_mpz(v.z[v.nz], tk); if (g >= 0 && shared[g] < 0) shared[g] = v.nz; c.z[zi++] = v.z[v.nz++]; }
       } else if (s == 'Q' || s == 'q') {
-        if (run == 1 && grp && shared >= 0) c.q[qi++] = v.q[shared];
-        else { mpq_init(v.q[v.nq]); tok_mpz(mpq_numref(v.q[v.nq]), tk); tok_mpz(mpq_denref(v.q[v.nq]), tk + 1); if (grp) shared = v.nq; c.q[qi++] = v.q[v.nq++]; }
+        if (run == 1 && g >= 0 && shared[g] >= 0) c.q[qi++] = v.q[shared[g]];
+        else { mpq_init(v.q[v.nq]); tok_mpz(mpq_numref(v.q[v.nq]), tk); tok_mpz(mpq_denref(v.q[v.nq]), tk + 1); if (g >= 0 && shared[g] < 0) shared[g] = v.nq; c.q[qi++] = v.q[v.nq++]; }
       } else if (s == 'F' || s == 'f') {
-        if (run == 1 && grp && shared >= 0) c.f[fi++] = v.f[shared];
-        else { load_f(v.f[v.nf], tk); if (grp) shared = v.nf; c.f[fi++] = v.f[v.nf++]; }
+        if (run == 1 && g >= 0 && shared[g] >= 0) c.f[fi++] = v.f[shared[g]];
+        else { load_f(v.f[v.nf], tk); if (g >= 0 && shared[g] < 0) shared[g] = v.nf; c.f[fi++] = v.f[v.nf++]; }
       } else if (s == 'u') c.u[ui++] = tok_ulong(tk);
       else if (s == 's') c.s[si++] = tok_long(tk);
       else if (s == 'd') c.d[di++] = tok_double(tk);
@@ -85,22 +91,20 @@ static int op_api_alias(int argc, tok_t *a, out_t *o) {
       if (d->ret == 'd') { unsigned long bb; memcpy(&bb, &c.rd, 8); out_ulong(&r, bb); }
       else if (d->ret == 'u') out_ulong(&r, c.ru);
       else if (d->ret != 'v') out_long(&r, c.rs_);
-      /* every object parameter after the call; in the aliased run the group members are one variable,
-         so report the group once (at P) and the other parameters as they are */
       zi = qi = fi = 0;
       for (int i = 0; i < np; i++) {
         char s = d->sig[i]; if (!is_obj(s)) continue;
         int idx = (s | 0x20) == 'z' ? zi++ : (s | 0x20) == 'q' ? qi++ : fi++;
-        int grp = (mask >> i & 1);
-        if (grp) {                       /* an input in the alias group: unchanged in the distinct run */
+        int g = grp_of[i];
+        if (g >= 0 && !is_ptr(s)) {      /* an input in an alias group: unchanged in the distinct run */
           if (run == 0) {
             out_t before = {0}, after = {0};
             snap(&after, s, &c, idx);
             apicall_t tmp; memset(&tmp, 0, sizeof tmp);
-            /* expected = the loaded value: rebuild it */
-            if (s == 'z') { mpz_t e; mpz_init(e); tok_mpz(e, &a[off[first]]); tmp.z[0] = e; snap(&before, s, &tmp, 0); mpz_clear(e); }
-            else if (s == 'q') { mpq_t e; mpq_init(e); tok_mpz(mpq_numref(e), &a[off[first]]); tok_mpz(mpq_denref(e), &a[off[first] + 1]); tmp.q[0] = e; snap(&before, s, &tmp, 0); mpq_clear(e); }
-            else { mpf_t e; load_f(e, &a[off[first]]); tmp.f[0] = e; snap(&before, s, &tmp, 0); mpf_clear(e); }
+            tok_t *tk = &a[off[first[g]]];
+            if (s == 'z') { mpz_t e; mpz_init(e); tok_mpz(e, tk); tmp.z[0] = e; snap(&before, s, &tmp, 0); mpz_clear(e); }
+            else if (s == 'q') { mpq_t e; mpq_init(e); tok_mpz(mpq_numref(e), tk); tok_mpz(mpq_denref(e), tk + 1); tmp.q[0] = e; snap(&before, s, &tmp, 0); mpq_clear(e); }
+            else { mpf_t e; load_f(e, tk); tmp.f[0] = e; snap(&before, s, &tmp, 0); mpf_clear(e); }
             if (strcmp(before.buf, after.buf)) { out_err(&r, "input-modified"); }
             free(before.buf); free(after.buf);
           }
@@ -117,6 +121,18 @@ static int op_api_alias(int argc, tok_t *a, out_t *o) {
   else { out_err(o, "alias-differs"); out_bytes(o, res[0], strlen(res[0])); out_bytes(o, res[1], strlen(res[1])); }
   free(res[0]); free(res[1]);
   return 0;
+}
+static int op_api_alias(int argc, tok_t *a, out_t *o) {
+  if (argc < 3 || a[0].kind != T_STR) return -1;
+  const apidesc_t *d = find_api((char *) a[0].s); if (!d) return -1;
+  int P[2] = { (int) tok_long(&a[1]), -1 }; unsigned long m[2] = { tok_ulong(&a[2]), 0 };
+  return alias_run(d, 1, P, m, a + 3, argc - 3, o);
+}
+static int op_api_alias2(int argc, tok_t *a, out_t *o) {
+  if (argc < 5 || a[0].kind != T_STR) return -1;
+  const apidesc_t *d = find_api((char *) a[0].s); if (!d) return -1;
+  int P[2] = { (int) tok_long(&a[1]), (int) tok_long(&a[3]) }; unsigned long m[2] = { tok_ulong(&a[2]), tok_ulong(&a[4]) };
+  return alias_run(d, 2, P, m, a + 5, argc - 5, o);
 }
 
 static int op_api_count(int argc, tok_t *a, out_t *o) {
@@ -268,7 +284,7 @@ static int op_getz(int argc, tok_t *a, out_t *o) {
 }
 
 const opdef_t ops_api[] = {
-  {"api_alias", op_api_alias}, {"api_count", op_api_count},
+  {"api_alias", op_api_alias}, {"api_alias2", op_api_alias2}, {"api_count", op_api_count},
   {"@reset", op_reset}, {"@done", op_done}, {"@setz", op_setz}, {"@setq", op_setq}, {"@setf", op_setf},
   {"@init2", op_init2}, {"@realloc2", op_realloc2}, {"@seed", op_seed}, {"@call", op_call}, {"@getz", op_getz},
   {0, 0}
